@@ -123,6 +123,7 @@ class ProbeProcess(Process):
         'ts_fn': None, 'cond_fn': None, 'emit': True, 'silent': False,
         'emit_off': [],
         'scale': 1, 'prec': None,     # tick length and global_time_precision
+        'fscale': None,               # tick length of plain float times (no precision)
     }
 
     def __init__(self, parameters=None):
@@ -154,6 +155,9 @@ class ProbeProcess(Process):
         if self.parameters['prec'] is not None:
             # timesteps on the 10^-p grid (ans is a number of ticks)
             return round(ans * self.parameters['scale'], self.parameters['prec'])
+        if self.parameters['fscale'] is not None:
+            # ordinary float arithmetic, as a user would write it (3 * 0.1)
+            return ans * self.parameters['fscale']
         return ans
 
     def update_condition(self, timestep, states):
@@ -173,8 +177,13 @@ class ProbeProcess(Process):
         for var in self.parameters['vars']:
             if var == self.pid:
                 # the clock variable counts ticks
-                upd[var] = Amt(timestep if self.parameters['prec'] is None
-                               else round(timestep / self.parameters['scale']), uid)
+                if self.parameters['fscale'] is not None:
+                    q = timestep / self.parameters['fscale']
+                    ticks = round(q) if abs(q - round(q)) < 1e-6 else -777
+                    upd[var] = Amt(ticks, uid)
+                else:
+                    upd[var] = Amt(timestep if self.parameters['prec'] is None
+                                   else round(timestep / self.parameters['scale']), uid)
             elif var in self.parameters['writes']:
                 amt = self._pick(self.parameters['writes'][var], self.i_inv)
                 upd[var] = Amt(amt, uid)
